@@ -141,6 +141,59 @@ theorem C03_setitem_is_list_set_no_varargs (s : Sig) (c c' : Cfg) (i : Nat) (v :
   simp only [List.append_nil]
   exact (C03_setitem_is_list_set s c c' i v wf hv hpre h).1
 
+/-! ### Slice assignment on the fixed prefix -/
+
+/-- Positions `0..m` of the signature are positional parameters. -/
+def PosUpTo (s : Sig) (m : Nat) : Prop :=
+  ∀ j, j ≤ m → ∃ p, s[j]? = some p ∧ (p.kind = .po ∨ p.kind = .pk)
+
+theorem setItems_is_foldl_set (s : Sig) (wf : ViewWF s) (hvp : s.vpStart = none) :
+    ∀ (ivs : List (Int × Val)) (c c' : Cfg),
+      (∀ iv ∈ ivs, (∀ ts j, iv.2 ≠ .tv ts j) ∧ ∃ m : Nat, iv.1 = (m : Int) ∧ PosUpTo s m) →
+      Cfg.setItems s c ivs = .ok c' →
+      s.allPositional c'.args =
+        ivs.foldl (fun l (iv : Int × Val) => l.set iv.1.toNat iv.2) (s.allPositional c.args) := by
+  intro ivs
+  induction ivs with
+  | nil => intro c c' _ h; simp [Cfg.setItems] at h; simp [h]
+  | cons iv ivs ih =>
+    intro c c' hall h
+    obtain ⟨i, v⟩ := iv
+    obtain ⟨hv, m, rfl, hpre⟩ := hall (i, v) (by simp)
+    simp only [Cfg.setItems] at h
+    split at h
+    · rename_i c1 h1
+      have := C03_setitem_is_list_set_no_varargs s c c1 m v wf hv hvp hpre h1
+      simp only [List.foldl_cons, Int.toNat_natCast]
+      rw [← this]
+      exact ih c1 c' (fun iv hiv => hall iv (by simp [hiv])) h
+    · cases h
+
+/-- **`cfg[a:b:st] = vals` is list slice assignment** (callables without `*args`): an accepted
+    assignment has exactly as many values as the slice selects positions, and afterwards the
+    list `cfg[:]` indexes into is the list before with every selected position replaced by its
+    value, in order — Python's extended-slice assignment (`Py.setSlice` for `st ≠ 1`), for
+    every start, stop and step sign. -/
+theorem C03_setslice_is_list_slice_assignment (s : Sig) (c c' : Cfg) (k : Cfg.SliceK) (vals : List Val)
+    (wf : ViewWF s) (hvp : s.vpStart = none) (hv : ∀ v ∈ vals, ∀ ts j, v ≠ .tv ts j)
+    (a b st : Int)
+    (hsl : Py.sliceIndices (Cfg.resolveSlice s k) (s.allPositional c.args).length = some (a, b, st))
+    (hidx : ∀ i ∈ Py.rangeList a b st, ∃ m : Nat, i = (m : Int) ∧ PosUpTo s m)
+    (h : c.setSlice s k vals = .ok c') :
+    (Py.rangeList a b st).length = vals.length ∧
+      s.allPositional c'.args =
+        ((Py.rangeList a b st).zip vals).foldl (fun l (iv : Int × Val) => l.set iv.1.toNat iv.2)
+          (s.allPositional c.args) := by
+  unfold Cfg.setSlice at h
+  simp only [hsl, hvp] at h
+  by_cases hl : (Py.rangeList a b st).length = vals.length
+  · simp only [hl, ne_eq, not_true_eq_false, if_false, if_true] at h
+    refine ⟨hl, setItems_is_foldl_set s wf hvp _ c c' ?_ h⟩
+    intro iv hiv
+    have h1 := List.of_mem_zip hiv
+    exact ⟨hv iv.2 h1.2, hidx iv.1 h1.1⟩
+  · simp [hl] at h
+
 /-! ### Attribute edits behave like a dict restricted to the signature -/
 
 /-- A name is accepted by `setattr` exactly when it names a keyword-capable parameter, or the
